@@ -88,8 +88,8 @@ def specs():
     add(a + "nuc_v", adsb.nuc_v, tup(isint, onum, onum), tcin(19))
     add(a + "nac_v", adsb.nac_v, tup(isint, onum, onum), tcin(19))
     add(a + "nuc_p", adsb.nuc_p, tup(isint, onum, onum, onum), tcin(*POS))
-    add(a + "nic_v1", adsb.nic_v1, tup(isint, onum, onum), tcin(*POS), lambda m, o, r: (m, r.choice((0, 1, True, False))))
-    add(a + "nic_v2", adsb.nic_v2, tup(opt(isint), onum), tcin(*POS), lambda m, o, r: (m, r.choice((0, 1, True, False)), r.choice((0, 1, True, False))))
+    add(a + "nic_v1", adsb.nic_v1, tup(isint, onum, onum), tcin(*POS), lambda m, o, r: (m, r.choice((0, 1, True, False, "0", "1"))))
+    add(a + "nic_v2", adsb.nic_v2, tup(opt(isint), onum), tcin(*POS), lambda m, o, r: (m, r.choice((0, 1, True, False, "0", "1")), r.choice((0, 1, True, False, "0", "1"))))
     add(a + "nic_b", adsb.nic_b, isint, tcin(*range(9, 19)))
     add(a + "version", adsb.version, isint, tcin(31))
     add(a + "nic_s", adsb.nic_s, isint, tcin(31))
